@@ -623,6 +623,10 @@ func RuleZ2(c *Ctx) {
 						}
 					case *ssa.UnOp:
 						if x.Op == token.MUL && rooted(x.X) {
+							// a load nothing uses (`_ = x`) observes nothing
+							if rs := x.Referrers(); rs != nil && len(*rs) == 0 {
+								return
+							}
 							reads = append(reads, x)
 						}
 					case ssa.CallInstruction:
